@@ -915,10 +915,40 @@ fn exec_nest_here(toks: &[&str]) -> String {
     h.join().unwrap_or_else(|e| format!("panic:{}", panic_msg(e)))
 }
 
+/// `parse nestseq kind:n,kind:n,…`: the texts are parsed one after the other on ONE thread (as a server worker
+/// would): the outcome of each must depend on its own text only, whatever was parsed (and rejected) before it
+fn exec_nestseq_here(toks: &[&str]) -> String {
+    let mut texts = Vec::new();
+    for item in toks.get(2).copied().unwrap_or("").split(',') {
+        let mut it = item.split(':');
+        let (k, n) = match (it.next(), it.next().and_then(|x| x.parse::<usize>().ok())) {
+            (Some(k), Some(n)) => (k, n),
+            _ => return "bad-request".into(),
+        };
+        match nest_text(k, n) {
+            Some(t) => texts.push(t),
+            None => return "bad-request".into(),
+        }
+    }
+    let h = std::thread::spawn(move || {
+        let mut outs = Vec::new();
+        for text in texts {
+            let r = catch_unwind(AssertUnwindSafe(|| match kolibrie::parser::parse_combined_query(&text) {
+                Ok(_) => "ok".to_string(),
+                Err(_) => "err".to_string(),
+            }))
+            .unwrap_or_else(|e| format!("panic:{}", panic_msg(e)));
+            outs.push(r);
+        }
+        outs.join(",")
+    });
+    h.join().unwrap_or_else(|e| format!("panic:{}", panic_msg(e)))
+}
+
 /// deep nesting can overflow the stack, which aborts the process: run it in a child
 fn exec_nest(req: &str, toks: &[&str]) -> String {
     if std::env::var("KVERIF_C16_CHILD").is_ok() {
-        return exec_nest_here(toks);
+        return if toks.get(1) == Some(&"nestseq") { exec_nestseq_here(toks) } else { exec_nest_here(toks) };
     }
     use std::io::Write;
     let exe = match std::env::current_exe() {
@@ -972,6 +1002,21 @@ impl Prop for C16 {
             for d in depths {
                 out.push(format!("parse nest {} {}", k, d));
                 stats.hit("nest");
+            }
+        }
+        // histories on one thread: rejected over-deep texts must not change what is accepted afterwards (and vice versa)
+        for (reps, deep) in [(1usize, 129usize), (3, 140), (40, 129), (130, 200), (200, 129)] {
+            for k in ["group", "paren", "quoted", "sub"] {
+                let mut items: Vec<String> = vec![format!("{}:100", k)];
+                for _ in 0..reps {
+                    items.push(format!("{}:{}", k, deep));
+                }
+                for probe in [1usize, 60, 120, 124, 128] {
+                    items.push(format!("group:{}", probe));
+                    items.push(format!("{}:{}", k, probe));
+                }
+                out.push(format!("parse nestseq {}", items.join(",")));
+                stats.hit("nest_history");
             }
         }
         // nested syntax trees around the nesting limit, through the round-trip check
@@ -1036,7 +1081,7 @@ impl Prop for C16 {
             Some("rt") => exec_rt(&toks),
             Some("text") => exec_text(&toks),
             Some("fuzz") => exec_fuzz(&toks),
-            Some("nest") => exec_nest(req, &toks),
+            Some("nest") | Some("nestseq") => exec_nest(req, &toks),
             _ => "bad-request".into(),
         }
     }
